@@ -632,6 +632,8 @@ func runC01(c *Ctx) {
 	ruleEmissionGrammar(c, "R01.b", true)
 	ruleBulkFrame(c, "R01.c")
 	ruleReaderUses(c, "R01.c", "R01.c")
+	ruleLineReaderValue(c, "R01.c")
+	ruleOwnedBytes(c, "R01.c")
 	ruleConstructors(c)
 	c.assume("bytes.Buffer and strconv behave as documented")
 }
